@@ -52,6 +52,31 @@ pub fn card_of_token(tok: &str) -> u32 {
 /// ASCII definition.
 pub const SEPARATORS: [char; 5] = [' ', '\t', '\n', '\r', '\x0C'];
 
+/// The two standard definitions of "whitespace". The statement says "whitespace-separated"
+/// without choosing; the harness probes which one the crate implements and then requires that
+/// single definition from every parser on every text.
+#[derive(Clone, Copy, Debug, PartialEq, Eq)]
+pub enum WsDef {
+    /// Unicode White_Space (char::is_whitespace): includes U+000B, U+0085, U+00A0, U+2003, ...
+    Unicode,
+    /// ASCII whitespace (char::is_ascii_whitespace): space, tab, LF, FF, CR only
+    Ascii,
+}
+
+impl WsDef {
+    pub fn is_ws(self, c: char) -> bool {
+        match self {
+            WsDef::Unicode => c.is_whitespace(),
+            WsDef::Ascii => c.is_ascii_whitespace(),
+        }
+    }
+}
+
+/// maximal runs of non-whitespace characters under the given definition
+pub fn tokens_with(def: WsDef, text: &str) -> Vec<&str> {
+    text.split(|c| def.is_ws(c)).filter(|t| !t.is_empty()).collect()
+}
+
 /// Tokens of a text that contains no whitespace other than SEPARATORS.
 pub fn tokens(text: &str) -> Vec<&str> {
     text.split(|c| SEPARATORS.contains(&c)).filter(|t| !t.is_empty()).collect()
